@@ -108,7 +108,7 @@ Section Decode.
     { destruct (lazy_cases nf str norm n called EN) as [[Ec En]|[Ec En]]; subst norm; [split; assumption|].
       split; [apply no_nul_firstn, Hs|]. rewrite firstn_length. lia. }
     destruct Hnorm as [Hnorm Hfs].
-    destruct (tie_str_split fuel tl0 Htl norm (repeat 0%Z 16) Hnorm eq_refl Hfs) as (Bf'&words'&ES&LW&HQ).
+    destruct (tie_str_split fuel sgn tl0 Htl norm (repeat 0%Z 16) Hnorm eq_refl Hfs) as (Bf'&words'&ES&LW&HQ).
     cbv beta iota. rewrite ES. cbv beta iota.
     pose proof (str_split_16 norm) as S16. pose proof (str_split_words norm) as SW.
     destruct (str_split norm) as [w toks] eqn:ESS. cbn [fst snd] in *.
@@ -183,7 +183,7 @@ Section Decode.
     { destruct (lazy_cases nf str norm n called EN) as [[Ec En]|[Ec En]]; subst norm; [split; assumption|].
       split; [apply no_nul_firstn, Hs|]. rewrite firstn_length. lia. }
     destruct Hnorm as [Hnorm Hfs].
-    destruct (tie_str_split fuel tl0 Htl norm (repeat 0%Z 16) Hnorm eq_refl Hfs) as (Bf'&words'&ES&LW&HQ).
+    destruct (tie_str_split fuel sgn tl0 Htl norm (repeat 0%Z 16) Hnorm eq_refl Hfs) as (Bf'&words'&ES&LW&HQ).
     cbv beta iota. rewrite ES. cbv beta iota.
     pose proof (str_split_16 norm) as S16. pose proof (str_split_words norm) as SW.
     destruct (str_split norm) as [w toks] eqn:ESS. cbn [fst snd] in *.
